@@ -1,4 +1,5 @@
 import Orb.Proto
+import Orb.CoreNil
 import Orb.GeoJSON
 
 /-!
@@ -6,8 +7,15 @@ import Orb.GeoJSON
 
   Tree tokens:  n | t | f | B | d <16hex> | i <decimal> | s x<hex> | a <n> tree* | o <n> (x<hex> tree)*
                 (B: a bson boolean with a payload byte other than 0 / 1 — `Json.bad`)
-  Feature:      F <id: - | tree> <bbox: - | b n hex*> <gval> <props: - | o …>   (N = nil pointer)
-  FC:           FC <bbox> <features: - | l n feature*> <extra: - | o …>
+  Feature:      F [x<hex Type>] <id: - | tree> <bbox: - | b n hex*> <gval> <props: - | o …>   (N = nil pointer)
+  FC:           FC [x<hex Type>] <bbox> <features: - | l n feature*> <extra: - | o …>
+                (Type: always present in outcomes; optional in inputs, default "Feature" / "FeatureCollection")
+  Input geometries are written by `gsN`: nil rings / lines / polygons (`n`), typed-nil and
+  nil-interface collection members — read into `Orb.CoreNil.NGeom` (`ngeom`).
+
+  VERDICTS.  `propfail` outranks `diff` — except for the labels of KNOWN findings (`knownLabels`):
+  those are emitted only when implementation and model agree on the WHOLE case (documents and every
+  decode outcome; the model predicts the documented behaviour too), otherwise the case is a `diff`.
 -/
 namespace Driver.C02
 open Orb Orb.Proto Orb.GeoJSON
@@ -107,43 +115,120 @@ def showMembers : Option Members → String
   | none => "-"
   | some ms => showJson (.obj ms)
 
-def feature : P (Option Feature) := fun ts =>
+/-! values with nil members on the wire (the reader of Driver/C06.lean, kept local) -/
+
+def npts : P (CoreNil.NPts UInt64) := fun ts =>
+  match ts with
+  | "n" :: ts => some (none, ts)
+  | _ => do
+    let (n, ts) ← nat ts
+    let (l, ts) ← many pt n ts
+    pure (some l, ts)
+
+def nptsL : P (List (CoreNil.NPts UInt64)) := fun ts => do
+  let (n, ts) ← nat ts
+  many npts n ts
+
+def nptss : P (CoreNil.NPtss UInt64) := fun ts =>
+  match ts with
+  | "n" :: ts => some (none, ts)
+  | _ => (nptsL ts).map fun (l, ts) => (some l, ts)
+
+def nptssL : P (List (CoreNil.NPtss UInt64)) := fun ts => do
+  let (n, ts) ← nat ts
+  many nptss n ts
+
+partial def ngeom : P NG := fun ts =>
+  match ts with
+  | "nil" :: ts => some (.nilIface, ts)
+  | "nMP" :: ts => some (.multiPoint none, ts)
+  | "nLS" :: ts => some (.lineString none, ts)
+  | "nMLS" :: ts => some (.multiLineString none, ts)
+  | "nR" :: ts => some (.ring none, ts)
+  | "nPG" :: ts => some (.polygon none, ts)
+  | "nMPG" :: ts => some (.multiPolygon none, ts)
+  | "nC" :: ts => some (.nilCollection, ts)
+  | "P" :: ts => (pt ts).map fun (p, ts) => (.point p, ts)
+  | "MP" :: ts => (npts ts).map fun (p, ts) => (.multiPoint p, ts)
+  | "LS" :: ts => (npts ts).map fun (p, ts) => (.lineString p, ts)
+  | "R" :: ts => (npts ts).map fun (p, ts) => (.ring p, ts)
+  | "MLS" :: ts => (nptsL ts).map fun (p, ts) => (.multiLineString (some p), ts)
+  | "PG" :: ts => (nptsL ts).map fun (p, ts) => (.polygon (some p), ts)
+  | "MPG" :: ts => (nptssL ts).map fun (p, ts) => (.multiPolygon (some p), ts)
+  | "B" :: ts => do
+    let (a, ts) ← pt ts
+    let (b, ts) ← pt ts
+    pure (.bound a b, ts)
+  | "C" :: ts => do
+    let (n, ts) ← nat ts
+    let rec go : Nat → Toks → Option (List NG × Toks)
+      | 0, ts => some ([], ts)
+      | n+1, ts => do
+        let (g, ts) ← ngeom ts
+        let (gs, ts) ← go n ts
+        pure (g :: gs, ts)
+    let (gs, ts) ← go n ts
+    pure (.collection gs, ts)
+  | _ => none
+
+/-- an optional `x<hex>` Type token -/
+def optType (dflt : String) : P String := fun ts =>
+  match ts with
+  | t :: rest =>
+    (match xstr? t with
+     | some s => some (s, rest)
+     | none => some (dflt, ts))
+  | [] => some (dflt, [])
+
+/-- a feature together with the Go value of its geometry (`f.geom = toV n`) -/
+def featureN : P (Option (Feature × NG)) := fun ts =>
   match ts with
   | "N" :: ts => some (none, ts)
   | "F" :: ts => do
+    let (ty, ts) ← optType "Feature" ts
     let (id, ts) ← (match ts with
       | "-" :: ts => some (none, ts)
       | ts => (json ts).map fun (j, ts) => (some j, ts))
     let (bb, ts) ← bbox ts
-    let (g, ts) ← gval ts
+    let (n, ts) ← ngeom ts
     let (ps, ts) ← members ts
-    pure (some { id := id, bbox := bb, geom := g, props := ps }, ts)
+    pure (some ({ id := id, typ := ty, bbox := bb, geom := toV n, props := ps }, n), ts)
   | _ => none
 
+/-- outcome token: the decoded `Type` field is printed -/
 def showFeature : Option Feature → String
   | none => "N"
   | some f =>
-    "F " ++ (match f.id with | none => "-" | some j => showJson j) ++ " " ++ showBBox f.bbox ++ " " ++
+    "F " ++ showX f.typ ++ " " ++ (match f.id with | none => "-" | some j => showJson j) ++ " " ++ showBBox f.bbox ++ " " ++
       showGVal f.geom ++ " " ++ showMembers f.props
 
-def fc : P FC := fun ts =>
+/-- a feature collection together with the Go values of its features' geometries (in order) -/
+def fcN : P (FC × List NG) := fun ts =>
   match ts with
   | "FC" :: ts => do
+    let (ty, ts) ← optType "FeatureCollection" ts
     let (bb, ts) ← bbox ts
     let (fs, ts) ← (match ts with
       | "-" :: ts => some (none, ts)
-      | "l" :: ts => (counted feature ts).map fun (l, ts) => (some l, ts)
+      | "l" :: ts => (counted featureN ts).map fun (l, ts) => (some l, ts)
       | _ => none)
     let (ex, ts) ← members ts
-    pure ({ bbox := bb, features := fs, extra := ex }, ts)
+    let feats := fs.map fun l => l.map fun o => o.map (·.1)
+    let ns := (fs.getD []).filterMap fun o => o.map (·.2)
+    pure (({ typ := ty, bbox := bb, features := feats, extra := ex }, ns), ts)
   | _ => none
 
 def showFC (x : FC) : String :=
-  "FC " ++ showBBox x.bbox ++ " " ++
+  "FC " ++ showX x.typ ++ " " ++ showBBox x.bbox ++ " " ++
     (match x.features with
      | none => "-"
      | some l => l.foldl (fun acc f => acc ++ " " ++ showFeature f) ("l " ++ toString l.length)) ++ " " ++
     showMembers x.extra
+
+/-- a decoded `*geojson.Geometry`: its `Type` field and `Geometry()`; `nil` for a nil pointer -/
+def showGOut : V → String
+  | .nilIface => "nil"
+  | v => showX (typeOfV v) ++ " " ++ showGVal v
 
 def errClass : Err → String
   | .json => "json" | .invalid => "invalid" | .notType => "nottype"
@@ -213,52 +298,113 @@ structure Sides where
   bdoc : Toks
   bdec : Toks
   brm : Toks
+  extra : Toks := []   -- fc: `em same|mutated`
 
 def sides (out : Toks) : Option Sides :=
   match splitSemi out with
-  | [a, b, c, d, e, f, g] => some ⟨a, b, c, d, e, f, g⟩
+  | [a, b, c, d, e, f, g] => some ⟨a, b, c, d, e, f, g, []⟩
+  | [a, b, c, d, e, f, g, h] => some ⟨a, b, c, d, e, f, g, h⟩
   | _ => none
+
+/-! Implementation outcomes are re-read and re-printed before they are compared: the harness
+    writes a typed-nil MEMBER of a decoded collection as `nMP` …, which the model's decoded value
+    (`Geom`: no nil below the top level) prints as the empty value `MP 0`.  Top-level nil-ness is kept. -/
+
+def normGeomOut (ts : Toks) : String :=
+  match ts with
+  | "ok" :: x :: rest =>
+    (match ngeom rest with
+     | some (n, []) => "ok " ++ x ++ " " ++ showGVal (toV n)
+     | _ => unw ts)
+  | _ => unw ts
+
+def normTypedOut (ts : Toks) : String :=
+  match ts with
+  | "ok" :: rest =>
+    (match ngeom rest with
+     | some (n, []) => "ok " ++ showGVal (toV n)
+     | _ => unw ts)
+  | _ => unw ts
+
+def normFeatOut (ts : Toks) : String :=
+  match ts with
+  | "ok" :: rest =>
+    (match featureN rest with
+     | some (o, []) => "ok " ++ showFeature (o.map (·.1))
+     | _ => unw ts)
+  | _ => unw ts
+
+def normFCOut (ts : Toks) : String :=
+  match ts with
+  | ["ok", "N"] => "ok N"
+  | "ok" :: rest =>
+    (match fcN rest with
+     | some ((x, _), []) => "ok " ++ showFC x
+     | _ => unw ts)
+  | _ => unw ts
+
+/-- labels of known findings: emitted only when implementation and model agree on the whole case -/
+def knownLabels : List String :=
+  ["propfail nested-empty-collection-rejected", "propfail empty-collection-unmarshalgeometry-rejects-null",
+   "propfail bson-empty-coordinates-dropped", "propfail nil-member-written-as-null"]
+
+/-- final verdict: a NEW violation outranks a model disagreement; a KNOWN label needs agreement -/
+def finish (agree : Bool) (diffMsg : String) (r : String) : String :=
+  if agree then r
+  else if r.startsWith "propfail" && !(knownLabels.contains r) then r
+  else diffMsg
+
+def treeIs (ts : Toks) (p : Json → Bool) : Bool :=
+  match wholeJson ts with
+  | some j => p j
+  | none => false
+
+/-- the shape verdict for a document that is not RFC 7946 shaped: the known nil-member finding only
+    when the value has a nil slice member and the document of the same value WITHOUT nil-ness is
+    well-formed (so that the `null`s are the only reason) -/
+def shapeFail (c : Codec) (n : NG) (generic : String) : String :=
+  if hasNilSliceMember n && wellformed (geomDoc c (.val (forgetNil n))) then "propfail nil-member-written-as-null"
+  else generic
 
 /-! ### geom -/
 
-/-- `geom <gval> => J ; UnmarshalGeometry ; json.Unmarshal(&ptr) ; remarshal ; B ; bson.Unmarshal ; remarshal` -/
+/-- `geom <gsN value> => J ; UnmarshalGeometry ; json.Unmarshal(&ptr) ; remarshal ; B ; bson.Unmarshal ; remarshal` -/
 def handleGeom (inp out : Toks) : String :=
-  match gval inp, sides out with
-  | some (v, _), some s =>
-    let jd := geomDoc .json v
-    let bd := geomDoc .bson v
-    let m1 := showRes showGVal (geomOfDoc .json jd)
-    let m2 := showRes showGVal (geomPtrOfDoc jd)
-    let mb := showRes showGVal (geomOfDoc .bson bd)
-    -- correspondence: documents and every decode outcome
-    let docOk := (match wholeJson s.jdoc with | some j => j == jd | none => false)
-    let bdocOk := (match wholeJson s.bdoc with | some j => j == bd | none => false)
-    let agree := docOk && bdocOk && unw s.dec1 == m1 && unw s.dec2 == m2 && unw s.bdec == mb
-    let fin (r : String) : String :=
-      if r.startsWith "propfail" || agree then r
-      else s!"diff doc={docOk} bdoc={bdocOk} ; {showJson jd} ; {m1} ; {m2} ; {showJson bd} ; {mb}"
-    fin <|
+  match ngeom inp, sides out with
+  | some (n, _), some s =>
+    let v := toV n
+    let jd := geomDocN .json n
+    let bd := geomDocN .bson n
+    let m1 := showRes showGOut (geomOfDoc .json jd)
+    let m2 := showRes showGOut (geomPtrOfDoc jd)
+    let mb := showRes showGOut (geomOfDoc .bson bd)
+    -- correspondence: documents and every decode outcome (incl. the decoded Type field)
+    let docOk := treeIs s.jdoc (· == jd)
+    let bdocOk := treeIs s.bdoc (· == bd)
+    let agree := docOk && bdocOk && normGeomOut s.dec1 == m1 && normGeomOut s.dec2 == m2 && normGeomOut s.bdec == mb
+    finish agree s!"diff doc={docOk} bdoc={bdocOk} ; {showJson jd} ; {m1} ; {m2} ; {showJson bd} ; {mb}" <|
     -- the property, on the implementation's outcome
-    let want := "ok " ++ showGVal (canonV v)
+    let want := "ok " ++ showGOut (canonV v)
     let anyPanic := out.any (· == "panic")
     if anyPanic then
       (if vNestedEmpty v then "propfail nested-empty-collection-panics" else "propfail panic")
+    else if hasNilIfaceMember n then "ok triv-nil-iface-member"   -- a nil interface is not a geometry
     else if vIsTopNil v && !(match v with | .nilSlice .collection => true | _ => false) then
       -- nil interface / typed nil slices: not geometries of the quantifier; correspondence only
       "ok triv-topnil"
     else if s.jdoc == ["merr"] || s.bdoc == ["merr"] then "propfail marshal-error"
-    else if vNestedEmpty v && unw s.dec2 != want then "propfail nested-empty-collection-rejected"
-    else if unw s.dec2 != want then "propfail json-roundtrip-pointer"
+    else if vNestedEmpty v && normGeomOut s.dec2 != want then "propfail nested-empty-collection-rejected"
+    else if normGeomOut s.dec2 != want then "propfail json-roundtrip-pointer"
     else if vIsNullGeom v then
       -- empty collection: `null`; UnmarshalGeometry rejects what NewGeometry(...).MarshalJSON wrote
-      (if unw s.dec1 != want then "propfail empty-collection-unmarshalgeometry-rejects-null" else "ok empty-coll")
-    else if unw s.dec1 != want then "propfail json-roundtrip"
+      (if normGeomOut s.dec1 != want then "propfail empty-collection-unmarshalgeometry-rejects-null" else "ok empty-coll")
+    else if normGeomOut s.dec1 != want then "propfail json-roundtrip"
     else if s.rm != ["same"] then "propfail json-remarshal"
-    else if !(match wholeJson s.jdoc with | some j => wellformed j | none => false) then "propfail json-wellformed"
-    else if unw s.bdec != want then
+    else if !(treeIs s.jdoc wellformed) then shapeFail .json n "propfail json-wellformed"
+    else if normGeomOut s.bdec != want then
       (if vEmptyMulti v then "propfail bson-empty-coordinates-dropped" else "propfail bson-roundtrip")
     else if s.brm != ["same"] then "propfail bson-remarshal"
-    else if !(match wholeJson s.bdoc with | some j => wellformed j | none => false) then "propfail bson-wellformed"
+    else if !(treeIs s.bdoc wellformed) then shapeFail .bson n "propfail bson-wellformed"
     else
       match v with
       | .val (.collection _) => "ok coll"
@@ -269,67 +415,83 @@ def handleGeom (inp out : Toks) : String :=
 
 /-! ### typed helper types -/
 
-/-- `typed <gval> => J ; decode ; B ; decode` (geojson.Point … geojson.MultiPolygon) -/
+def kindOfNG : NG → Option Kind
+  | .point _ => some .point
+  | .multiPoint _ => some .multiPoint
+  | .lineString _ => some .lineString
+  | .multiLineString _ => some .multiLineString
+  | .polygon _ => some .polygon
+  | .multiPolygon _ => some .multiPolygon
+  | _ => none
+
+/-- `typed <gsN value> => J ; decode ; B ; decode` (geojson.Point … geojson.MultiPolygon) -/
 def handleTyped (inp out : Toks) : String :=
-  match gval inp with
+  match ngeom inp with
   | none => "bad input"
-  | some (v, _) =>
-    if out == ["na"] then "ok triv-na" else
-    match splitSemi out with
-    | [jdoc, jdec, bdoc, bdec] =>
+  | some (n, _) =>
+    match kindOfNG n, splitSemi out with
+    | none, _ => if out == ["na"] then "ok triv-na" else "bad output"
+    | some k, [jdoc, jdec, bdoc, bdec] =>
+      let v := toV n
       -- the helper types marshal `&Geometry{Coordinates: x}`: same documents as NewGeometry
-      let jd := geomDoc .json v
-      let bd := geomDoc .bson v
-      let m1 := showRes showGVal (geomOfDoc .json jd)
-      let mb := showRes showGVal (geomOfDoc .bson bd)
-      let docOk := (match wholeJson jdoc with | some j => j == jd | none => false)
-      let bdocOk := (match wholeJson bdoc with | some j => j == bd | none => false)
-      let agree := docOk && bdocOk && unw jdec == m1 && unw bdec == mb
-      let fin (r : String) : String :=
-        if r.startsWith "propfail" || agree then r
-        else s!"diff doc={docOk} bdoc={bdocOk} ; {showJson jd} ; {m1} ; {showJson bd} ; {mb}"
-      fin <|
+      let jd := geomDocN .json n
+      let bd := geomDocN .bson n
+      let m1 := showRes showGVal (typedOfDoc .json k jd)
+      let mb := showRes showGVal (typedOfDoc .bson k bd)
+      let docOk := treeIs jdoc (· == jd)
+      let bdocOk := treeIs bdoc (· == bd)
+      let agree := docOk && bdocOk && normTypedOut jdec == m1 && normTypedOut bdec == mb
+      finish agree s!"diff doc={docOk} bdoc={bdocOk} ; {showJson jd} ; {m1} ; {showJson bd} ; {mb}" <|
       if out.any (· == "panic") then "propfail typed-panic"
       else if vIsTopNil v then "ok triv-topnil"
       else
         let want := "ok " ++ showGVal (canonV v)
-        if unw jdec != want then "propfail typed-json-roundtrip"
-        else if unw bdec != want then
+        if normTypedOut jdec != want then "propfail typed-json-roundtrip"
+        else if !(treeIs jdoc wellformed) then shapeFail .json n "propfail typed-json-wellformed"
+        else if normTypedOut bdec != want then
           (if vEmptyMulti v then "propfail bson-empty-coordinates-dropped" else "propfail typed-bson-roundtrip")
         else "ok typed"
-    | _ => "bad output"
+    | _, _ => "bad output"
 
 /-! ### feature -/
 
 def fNestedEmpty (f : Feature) : Bool := vNestedEmpty f.geom
 def fEmptyMulti (f : Feature) : Bool := vEmptyMulti f.geom
 
-def showOptFeature (r : R (Option Feature)) : String := showRes showFeature r
+/-- the geometry member of a feature document is RFC 7946 shaped (or `null`) -/
+def geomMemberShaped (j : Json) : Bool :=
+  match j with
+  | .obj ms =>
+    (match lookupKey "geometry" ms with
+     | some .null => true
+     | some g => wellformed g
+     | none => false)
+  | _ => false
 
 def handleFeat (inp out : Toks) : String :=
-  match feature inp, sides out with
-  | some (some f, _), some s =>
-    let jd := featureDoc .json f
-    let bd := featureDoc .bson f
+  match featureN inp, sides out with
+  | some (some (f, n), _), some s =>
+    let jd := featureDocN .json f n
+    let bd := featureDocN .bson f n
     let m1 := showRes (fun x => showFeature (some x)) (featureOfDoc .json false jd)
     let m2 := showRes showFeature (featurePtrOfDoc jd)
     let mb := showRes (fun x => showFeature (some x)) (featureOfDoc .bson false bd)
-    let docOk := (match wholeJson s.jdoc with | some j => j == jd | none => false)
-    let bdocOk := (match wholeJson s.bdoc with | some j => sameModOrder j bd | none => false)
-    let agree := docOk && bdocOk && unw s.dec1 == m1 && unw s.dec2 == m2 && unw s.bdec == mb
-    let fin (r : String) : String :=
-      if r.startsWith "propfail" || agree then r
-      else s!"diff doc={docOk} bdoc={bdocOk} ; {showJson jd} ; {m1} ; {m2} ; {showJson bd} ; {mb}"
-    fin <|
+    let docOk := treeIs s.jdoc (· == jd)
+    let bdocOk := treeIs s.bdoc (sameModOrder · bd)
+    let agree := docOk && bdocOk && normFeatOut s.dec1 == m1 && normFeatOut s.dec2 == m2 && normFeatOut s.bdec == mb
+    finish agree s!"diff doc={docOk} bdoc={bdocOk} ; {showJson jd} ; {m1} ; {m2} ; {showJson bd} ; {mb}" <|
     let want := "ok " ++ showFeature (some (canonF f))
     if out.any (· == "panic") then
       (if fNestedEmpty f then "propfail nested-empty-collection-panics" else "propfail panic")
+    else if hasNilIfaceMember n then "ok triv-nil-iface-member"
     else if s.jdoc == ["merr"] || s.bdoc == ["merr"] then "propfail marshal-error"
-    else if fNestedEmpty f && unw s.dec1 != want then "propfail nested-empty-collection-rejected"
-    else if unw s.dec1 != want then "propfail feature-json-roundtrip"
-    else if unw s.dec2 != want then "propfail feature-json-roundtrip-pointer"
+    else if fNestedEmpty f && normFeatOut s.dec1 != want then "propfail nested-empty-collection-rejected"
+    else if normFeatOut s.dec1 != want then "propfail feature-json-roundtrip"
+    else if normFeatOut s.dec2 != want then "propfail feature-json-roundtrip-pointer"
     else if s.rm != ["same"] then "propfail feature-json-remarshal"
-    else if unw s.bdec != want then
+    else if !(treeIs s.jdoc geomMemberShaped) && !(vIsTopNil f.geom) then
+      shapeFail .json n "propfail feature-json-wellformed"
+    else if normFeatOut s.bdec != want then
       (if fEmptyMulti f then "propfail bson-empty-coordinates-dropped" else "propfail feature-bson-roundtrip")
     else if s.brm != ["same"] then "propfail feature-bson-remarshal"
     else
@@ -346,30 +508,43 @@ def handleFeat (inp out : Toks) : String :=
 
 def fcFeatures (x : FC) : List Feature := (x.features.getD []).filterMap id
 
+/-- every feature member of a collection document has a shaped (or null) geometry -/
+def featuresShaped (j : Json) : Bool :=
+  match j with
+  | .obj ms =>
+    (match lookupKey "features" ms with
+     | some (.arr l) => l.all fun f => match f with | .null => true | f => geomMemberShaped f
+     | _ => false)
+  | _ => false
+
 def handleFC (inp out : Toks) : String :=
-  match fc inp, sides out with
-  | some (x, _), some s =>
-    let jd := fcDoc .json x
-    let bd := fcDoc .bson x
+  match fcN inp, sides out with
+  | some ((x, ns), _), some s =>
+    let jd := fcDocN .json x ns
+    let bd := fcDocN .bson x ns
     let m1 := showRes showFC (fcOfDoc .json false jd)
     let m2 := showRes (fun o => match o with | some y => showFC y | none => "N") (fcPtrOfDoc jd)
     let mb := showRes showFC (fcOfDoc .bson false bd)
-    let docOk := (match wholeJson s.jdoc with | some j => j == jd | none => false)
-    let bdocOk := (match wholeJson s.bdoc with | some j => sameModOrder j bd | none => false)
-    let agree := docOk && bdocOk && unw s.dec1 == m1 && unw s.dec2 == m2 && unw s.bdec == mb
-    let fin (r : String) : String :=
-      if r.startsWith "propfail" || agree then r
-      else s!"diff doc={docOk} bdoc={bdocOk} ; {showJson jd} ; {m1} ; {m2} ; {showJson bd} ; {mb}"
-    fin <|
+    let docOk := treeIs s.jdoc (· == jd)
+    let bdocOk := treeIs s.bdoc (sameModOrder · bd)
+    let agree := docOk && bdocOk && normFCOut s.dec1 == m1 && normFCOut s.dec2 == m2 && normFCOut s.bdec == mb
+    finish agree s!"diff doc={docOk} bdoc={bdocOk} ; {showJson jd} ; {m1} ; {m2} ; {showJson bd} ; {mb}" <|
     let want := "ok " ++ showFC (canonFC x)
+    let nilSliceMem := ns.any hasNilSliceMember
     if out.any (· == "panic") then
       (if (fcFeatures x).any fNestedEmpty then "propfail nested-empty-collection-panics" else "propfail panic")
+    else if s.extra != ["em", "same"] then "propfail fc-marshal-mutates-extramembers"
+    else if ns.any hasNilIfaceMember then "ok triv-nil-iface-member"
     else if s.jdoc == ["merr"] || s.bdoc == ["merr"] then "propfail marshal-error"
-    else if (fcFeatures x).any fNestedEmpty && unw s.dec1 != want then "propfail nested-empty-collection-rejected"
-    else if unw s.dec1 != want then "propfail fc-json-roundtrip"
-    else if unw s.dec2 != want then "propfail fc-json-roundtrip-pointer"
+    else if (fcFeatures x).any fNestedEmpty && normFCOut s.dec1 != want then "propfail nested-empty-collection-rejected"
+    else if normFCOut s.dec1 != want then "propfail fc-json-roundtrip"
+    else if normFCOut s.dec2 != want then "propfail fc-json-roundtrip-pointer"
     else if s.rm != ["same"] then "propfail fc-json-remarshal"
-    else if unw s.bdec != want then
+    else if !(treeIs s.jdoc featuresShaped) && (fcFeatures x).all (fun f => !(vIsTopNil f.geom) || vIsNullGeom f.geom) then
+      (if nilSliceMem && (fcFeatures x).all (fun f => vIsNullGeom f.geom || wellformed (geomDoc .json f.geom)) then
+        "propfail nil-member-written-as-null"
+       else "propfail fc-json-wellformed")
+    else if normFCOut s.bdec != want then
       (if (fcFeatures x).any fEmptyMulti then "propfail bson-empty-coordinates-dropped" else "propfail fc-bson-roundtrip")
     else if s.brm != ["same"] then "propfail fc-bson-remarshal"
     else
@@ -380,6 +555,34 @@ def handleFC (inp out : Toks) : String :=
       | _, [] => "ok triv-fc-empty"
   | none, _ => "bad input"
   | _, none => "bad output"
+
+/-! ### bbox.go -/
+
+def showBound (b : Pt UInt64 × Pt UInt64) : String := showPt b.1 ++ " " ++ showPt b.2
+
+/-- `bbox <bbox> <bound: 4 hex> => valid b ; bound 4hex ; new <bbox> ; newbound 4hex` -/
+def handleBBox (inp out : Toks) : String :=
+  match bbox inp with
+  | none => "bad input"
+  | some (bb, ts) =>
+    match pt ts with
+    | none => "bad input"
+    | some (a, ts) =>
+      match pt ts with
+      | none => "bad input"
+      | some (b, _) =>
+        let mv := "valid " ++ (if bboxValid bb then "1" else "0")
+        let mb := "bound " ++ (match bboxBound bb with | .ok r => showBound r | .err _ => "err" | .panic _ => "panic")
+        let mn := "new " ++ showBBox (some (newBBox a b))
+        let mnb := "newbound " ++ (match bboxBound (some (newBBox a b)) with | .ok r => showBound r | .err _ => "err" | .panic _ => "panic")
+        match splitSemi out with
+        | [v, bd, nw, nb] =>
+          let agree := unw v == mv && unw bd == mb && unw nw == mn && unw nb == mnb
+          finish agree s!"diff {mv} ; {mb} ; {mn} ; {mnb}" <|
+          if out.any (· == "panic") then "propfail bbox-panic"
+          else if unw nb != "newbound " ++ showBound (a, b) then "propfail bbox-bound-roundtrip"
+          else if bboxValid bb then "ok bbox valid" else "ok bbox invalid"
+        | _ => "bad output"
 
 /-! ### C05: hostile documents -/
 
@@ -406,55 +609,69 @@ def isNilV : V → Bool
   | .nilIface => true
   | _ => false
 
-/-- allocation allowed for the six (three) decode calls on `len` input bytes (slack recorded in
-    props.json: a one-member object costs a Go map, ~300 bytes, in each accepting decoder) -/
+/-- allocation allowed for the six (three) decode calls — and, separately, for the six typed-helper
+    calls — on `len` input bytes (slack recorded in props.json: a one-member object costs a Go map,
+    ~300 bytes, in each accepting decoder) -/
 def allocBound (len : Nat) : Nat := 1024 * len + 1048576
 
 /-- nesting depth of objects: every nested geometry / feature is a nested Unmarshaler call that
-    re-validates (and re-scans) its whole sub-document -/
+    re-validates (json) or copies (bson) its whole sub-document -/
 partial def odepth : Json → Nat
   | .arr l => l.foldl (fun m j => max m (odepth j)) 0
   | .obj ms => 1 + ms.foldl (fun m kv => max m (odepth kv.2)) 0
   | _ => 0
 
-/-- `hostile json|bson <hex> => tree|nojson|exotic ; rawnull b ; ug C ; ugp C ; uf C ; ufp C ; ufc C ; ufcp C ; alloc n len`.
+def typedClassOf : R V → String
+  | .ok _ => "ok"
+  | .err e => "err:" ++ errClass e
+  | .panic _ => "panic"
+
+/-- `hostile json|bson <hex> => tree|nojson|exotic ; rawnull b ; ug C ; ugp C ; uf C ; ufp C ; ufc C ; ufcp C ;
+      ty C C C C C C ; alloc n len ntyped`.
     Model outcome class vs implementation for the documents that parse at all; `propfail` on a
-    panic (named after the model's reason when the model predicts it) or on over-allocation. -/
+    panic (named after the model's reason when — and only when — the model predicts exactly that
+    panic and everything else agrees), on a timeout, or on over-allocation. -/
 def handleHostile (inp out : List String) : String :=
   match inp, splitSemi out with
   | kind :: _, [tree, ["rawnull", rn], ["ug", ug], ["ugp", ugp], ["uf", uf], ["ufp", ufp], ["ufc", ufc], ["ufcp", ufcp],
-      ["alloc", al, ln]] =>
-    let impl := [ug, ugp, uf, ufp, ufc, ufcp]
+      "ty" :: ty, ["alloc", al, ln, tal]] =>
+    if ty.length != 6 then "bad hostile typed" else
+    let implMain := [ug, ugp, uf, ufp, ufc, ufcp]
+    let impl := implMain ++ ty
     let c : Codec := if kind == "bson" then .bson else .json
     let rawNull := rn == "1"
+    let parsed := wholeJson tree
     let allocFail : Option String :=
-      match al.toNat?, ln.toNat? with
-      | some a, some l =>
+      match al.toNat?, ln.toNat?, tal.toNat? with
+      | some a0, some l, some t =>
+        let a := max a0 t
         if a ≤ allocBound l then none
         else
           -- quadratic in the nesting depth of geometry collections: named apart
-          let d := (match wholeJson tree with | some j => odepth j | none => 0)
+          let d := (match parsed with | some j => odepth j | none => 0)
           if d ≥ 16 ∧ a ≤ allocBound (l * (d + 1)) then some s!"propfail alloc-superlinear-nesting {a} bytes for {l} input bytes at depth {d}"
           else some s!"propfail alloc {a} > bound({l})"
-      | _, _ => some "bad alloc"
+      | _, _, _ => some "bad alloc"
     let implPanic := impl.any (· == "panic")
+    let implTimeout := impl.any (· == "timeout")
     match tree with
     | ["nojson"] | ["exotic"] =>
       -- not a document the model can read: every decoder must return (an error, for text that
       -- encoding/json rejects)
       if implPanic then
         (if c == .bson then "propfail panic-bson-corrupt-document" else "propfail panic-unparsable-input")
+      else if implTimeout then "propfail timeout"
       else if let some a := allocFail then a
       else if tree == ["nojson"] && c == .json && impl.any (fun s => !(s.startsWith "err")) then "propfail accepted-invalid-json"
       else (if tree == ["nojson"] then "ok unparsable" else "ok exotic")
     | _ =>
-      match wholeJson tree with
+      match parsed with
       | none => "bad tree"
       | some j =>
         let mg := geomOfDoc c j
         let mf := featureOfDoc c rawNull j
         let mfc := fcOfDoc c rawNull j
-        let model : List String :=
+        let modelMain : List String :=
           match c with
           | .json =>
             [classOf isNilV mg, classOf isNilV (geomPtrOfDoc j),
@@ -462,42 +679,44 @@ def handleHostile (inp out : List String) : String :=
              classOf (fun _ => false) mfc, classOf (fun o : Option FC => o.isNone) (fcPtrOfDoc j)]
           | .bson =>
             [classOf (fun _ => false) mg, "-", classOf (fun _ => false) mf, "-", classOf (fun _ => false) mfc, "-"]
+        let modelTy : List String := typedKinds.map fun k => typedClassOf (typedOfDoc c k j)
+        let model := modelMain ++ modelTy
+        -- FeatureCollection members are visited in Go's random map order: when SEVERAL members fail,
+        -- any of their errors may be the one reported (and only one of theirs)
+        let classes : List String :=
+          match j with
+          | .obj ms => (fcErrClasses c (normKeys ms)).map fun e => "err:" ++ errClass e
+          | _ => []
+        let fcTol (m i : String) : Bool :=
+          m == i || (classes.length ≥ 2 && classes.contains i && (m.startsWith "err" || m == "panic"))
+        let mainOk :=
+          match modelMain, implMain with
+          | [a, b, c', d, e, f], [a', b', c'', d', e', f'] =>
+            a == a' && b == b' && c' == c'' && d == d' && fcTol e e' && fcTol f f'
+          | _, _ => false
+        let okAll := mainOk && modelTy == ty
+        let dup := hasDupKeys c j
+        let disagree := !okAll && !dup
+        let diffMsg := "diff " ++ " ".intercalate model
         if implPanic then
-          -- name the clause after what the model says panics
-          let why :=
-            (match mg, mf, mfc with
-             | .panic s, _, _ => s
-             | _, .panic s, _ => s
-             | _, _, .panic s => s
-             | _, _, _ =>
-               -- Go's random map order reached a panicking member the model's order did not
-               (match j with
-                | .obj ms => if fcMayPanic c (normKeys ms) then "nil pointer dereference: (*Geometry)" else ""
-                | _ => ""))
-          if why.startsWith "nil pointer dereference: (*Geometry)" then "propfail panic-null-geometry-member"
-          else if why.startsWith "nil pointer dereference: doc.Type" then "propfail panic-feature-null-document"
-          else "propfail panic-unmodelled"
-        else if let some a := allocFail then a
-        else if hasDupKeys c j then "skip duplicate-keys"
+          -- a known panic label ONLY for exactly the documented situation, predicted by the model,
+          -- everything else agreeing: json `null` into the typed helpers
+          if !(implMain.any (· == "panic")) && mainOk && modelTy == ty && c == .json &&
+              (match j with | .null => true | _ => false) then
+            "propfail panic-typed-helper-null"
+          else if implMain.any (· == "panic") then "propfail panic-unmodelled"
+          else "propfail panic-typed-helper-unmodelled"
+        else if implTimeout then "propfail timeout"
+        else if let some a := allocFail then
+          (if disagree && a.startsWith "propfail alloc-superlinear-nesting" then diffMsg else a)
+        else if dup then "skip duplicate-keys"
+        else if !okAll then diffMsg
         else
-          -- FeatureCollection members are visited in Go's random map order: when one member errs
-          -- and another panics, either may be reported
-          let fcTol (m i : String) : Bool :=
-            m == i || (m == "panic" && i.startsWith "err" &&
-              (match j with | .obj ms => fcMayErr c (normKeys ms) | _ => false)) ||
-              (m.startsWith "err" && i.startsWith "err")
-          let okAll :=
-            match model, impl with
-            | [a, b, c', d, e, f], [a', b', c'', d', e', f'] =>
-              a == a' && b == b' && c' == c'' && d == d' && fcTol e e' && fcTol f f'
-            | _, _ => false
-          if !okAll then "diff " ++ " ".intercalate model
-          else
-            let tag :=
-              if model.any (· == "ok") then "accepted"
-              else if model.any (· == "nil") then "null"
-              else "rejected"
-            s!"ok hostile-{kind} {tag}"
+          let tag :=
+            if model.any (· == "ok") then "accepted"
+            else if model.any (· == "nil") then "null"
+            else "rejected"
+          s!"ok hostile-{kind} {tag}"
   | _, _ => "bad hostile"
 
 def handle (ts : List String) : String :=
@@ -509,6 +728,7 @@ def handle (ts : List String) : String :=
     | "typed" => handleTyped inp out
     | "feat" => handleFeat inp out
     | "fc" => handleFC inp out
+    | "bbox" => handleBBox inp out
     | "hostile" => handleHostile inp out
     | _ => "bad op"
   | [] => "bad empty"
